@@ -162,6 +162,8 @@ def run(ctx: Ctx):
     depth = 4 if ctx.tier == "thorough" else 3
     next_id = [1]
 
+    cur_root = [b""]   # the data of the reader the current history started from (replays need it, not the slice's data)
+
     def explore(real, doc, rid, data, hist, dleft):
         nonlocal steps
         if dleft == 0:
@@ -183,11 +185,11 @@ def run(ctx: Ctx):
                 steps += 1
                 if a != b or (r2 is not None and (bytes(r2._data) != d2.data or r2.position != 0 or r2.chunked_reading_mode)):
                     fail[0] = (f"data {data.hex() or '-'} history {hist + [op]!r}: slice gives `{a}` over {bytes(r2._data).hex() if r2 else None}, "
-                               f"documented model gives `{b}` over {d2.data.hex() if d2 else None}", data, hist + [op])
+                               f"documented model gives `{b}` over {d2.data.hex() if d2 else None} (root data {cur_root[0].hex() or '-'})", cur_root[0], hist + [op])
                     return False
                 lines.append(f"r {rid} slice {'-' if op[1] is None else op[1]} {'-' if op[2] is None else op[2]} {nid}")
                 expect.append(a)
-                meta.append((data, hist + [op]))
+                meta.append((cur_root[0], hist + [op]))
                 ctx.sig(("slice", op[1] is None, doc.pos > len(doc.data) - 1, a[:3]))
                 if r2 is not None and not explore(r2, d2, nid, d2.data, hist + [op], dleft - 1):
                     return False
@@ -204,11 +206,11 @@ def run(ctx: Ctx):
             if why is None and not 0 <= r2.position <= len(data):
                 why = f"data {data.hex()} history {hist + [op]!r}: position {r2.position} outside the data"
             if why:
-                fail[0] = (why, data, hist + [op])
+                fail[0] = (why + f" (history applied to a reader over {cur_root[0].hex() or '-'}; after a slice the operations go to the new reader)", cur_root[0], hist + [op])
                 return False
             lines.append(rwlib.rop_line(nid, op))
             expect.append(a)
-            meta.append((data, hist + [op]))
+            meta.append((cur_root[0], hist + [op]))
             if not explore(r2, d2, nid, data, hist + [op], dleft - 1):
                 return False
         return True
@@ -223,6 +225,7 @@ def run(ctx: Ctx):
             lines.append(f"r new {rid} {tohex(data)}")
             expect.append("ok")
             meta.append((data, []))
+            cur_root[0] = data
             if not explore(R.EoReader(data), Doc(data), rid, data, [], depth):
                 break
             if len(lines) > 150_000:
